@@ -54,8 +54,8 @@ struct Args {
     #[arg(long)]
     scores: bool,
 
-    /// Prints tag scores.
-    #[arg(long)]
+    /// Prints tag scores. (requires --predict-tags)
+    #[arg(long, requires = "predict_tags")]
     tag_scores: bool,
 
     /// Do not normalize input strings before prediction.
